@@ -3,6 +3,7 @@
    exchange-rate application are covered by C02 / C10 on the registry and money
    models (same constructor choke point [mk_qty]). *)
 From Coq Require Import ZArith QArith Qabs List Bool.
+From QV Require Import Gen.QuantityImpl Model.Alloc Gen.AllocImpl Proofs.GenAllocEq.
 From QV Require Import Model.Num Model.Rounding Model.Quantity
      Proofs.RoundingQ Proofs.QuantityProofs Proofs.C13Proofs Proofs.C01Proofs
      Proofs.C03C04Proofs Proofs.C05Proofs.
@@ -63,6 +64,24 @@ Theorem C05_every_produced_quantity_on_grid : forall ce dm q,
   Produced ce dm q -> forall qu, u_quantum (q_unit q) = Some qu -> on_grid (q_amt q) qu.
 Proof. exact produced_on_grid. Qed.
 Print Assumptions C05_every_produced_quantity_on_grid.
+
+(* THE MODEL IS THE CODE: the statements that close Quantity.__new__ (from
+   `quantum = unit.quantum` to `return qty`, the single choke point through
+   which every instance is made) are re-translated from
+   src/quantity/__init__.py on every run (Gen/AllocImpl.v, translate/alloc.py:
+   `Decimal(x, 0)` is decimalfp's rounding to an integer under the default
+   mode).  The generated function is the constructor [mk_qty] the theorems above
+   are about: same unit, same value, and identical on every quantised unit. *)
+Theorem C05_constructor_is_translated_code : forall dm a u,
+  q_unit (mk_qty_impl dm a u) = q_unit (mk_qty dm a u) /\
+  q_amt (mk_qty_impl dm a u) == q_amt (mk_qty dm a u) /\
+  (forall qu, u_quantum u = Some qu -> mk_qty_impl dm a u = mk_qty dm a u).
+Proof.
+  intros. split; [rewrite mk_qty_impl_unit; unfold mk_qty; destruct (u_quantum u); reflexivity|].
+  split; [apply mk_qty_impl_value|].
+  intros qu H. rewrite (mk_qty_impl_eq dm a u), H. reflexivity.
+Qed.
+Print Assumptions C05_constructor_is_translated_code.
 
 Definition ex_kB := mkUnit 1 11 true (Some (1000 # 1)) (Some (1 # 8000)).
 Example C05_one_seventh_kB :
